@@ -30,6 +30,10 @@ MODES = [
     ("builtin exit(0)", "exit(0)", True),
     ("builtin exit(1)", "exit(1)", False),
     ("from sys import exit; exit(1)", "from sys import exit as e2; e2(1)", False),
+    # the termination starts inside a guarded function (a live region)
+    ("sys.exit(3) in a guarded function", "rt.guarded(PrivVal(1))(lambda: __import__('sys').exit(3))()", False),
+    ("sys.exit(0) in a guarded function", "rt.guarded(PrivVal(1))(lambda: __import__('sys').exit(0))()", True),
+    ("uncaught ValueError in a guarded function", "rt.guarded(PrivVal(1))(lambda: [].remove(1))()", False),
 ]
 POSITIONS = ("before-output", "after-output")
 
@@ -82,8 +86,13 @@ def probes(tier="quick"):
             nm = "X.autoprove_off[%s]" % label
             detail = "files=%r rc=%d stderr=%r" % (r["files"], r["rc"], r["stderr_tail"][-160:])
         else:
-            complete = r["files"] == ref["files"] if pos == "after-output" else len(r["files"]) == 2
-            good = (complete if ok else not r["files"])
+            if "guarded function" in label:
+                # the region's condition is one more witness: both files, each at least as long as the reference run's
+                complete = len(r["files"]) == 2 and (pos != "after-output" or all(r["files"][f] >= ref["files"][f] for f in ref["files"]))
+            else:
+                complete = r["files"] == ref["files"] if pos == "after-output" else len(r["files"]) == 2
+            # a failing end: no artefact AND a non-zero status (a swallowed sys.exit(3) ends with status 0 and no proof)
+            good = (complete and r["rc"] == 0) if ok else (not r["files"] and r["rc"] != 0)
             nm = "X.mode[%s]" % label
             detail = "position=%s expected_artefacts=%s files=%r rc=%d" % (pos, ok, r["files"], r["rc"])
         out.append(("cpython:termination", dict(position=pos, autoprove=auto),
